@@ -2,7 +2,6 @@
 package remember
 
 import (
-	"bytes"
 	"context"
 	"crypto/rand"
 	"crypto/sha512"
@@ -104,8 +103,10 @@ func Authenticate(ab *authboss.Authboss, w http.ResponseWriter, req **http.Reque
 		return nil
 	}
 
-	index := bytes.IndexByte(rawToken, ';')
-	if index < 0 {
+	// The token is pid;nonce and the nonce has a fixed size: split from the
+	// end so that pids containing the separator (eg. oauth2 pids) work.
+	index := len(rawToken) - nNonceSize - 1
+	if index < 0 || rawToken[index] != ';' {
 		authboss.DelCookie(w, authboss.CookieRemember)
 		logger.Infof("failed to decode remember me token, deleting cookie")
 		return nil
